@@ -177,6 +177,209 @@ func leanList(xs []string) string {
 	return "[" + strings.Join(q, ", ") + "]"
 }
 
+// ---- package-level state: which functions write package-level variables (as far as go/ast can tell)
+
+var readOnlyMethods = map[string]bool{"Cmp": true, "CmpAbs": true, "Float64": true, "Float32": true, "String": true, "Sign": true, "Num": true, "Denom": true,
+	"IsInt": true, "IsInt64": true, "IsUint64": true, "FloatString": true, "RatString": true, "Bytes": true, "Text": true, "BitLen": true, "Int64": true, "Uint64": true,
+	"Error": true, "Len": true, "Cap": true, "ProbablyPrime": true, "Bit": true, "Format": true, "MarshalText": true, "MarshalJSON": true, "GobEncode": true}
+
+// packageVars: names of package-level variables of all non-test, non-hook files of dir -> declared type text ("" if inferred)
+func packageVars(fset *token.FileSet, dir string) map[string]string {
+	res := map[string]string{}
+	files, _ := filepath.Glob(filepath.Join(dir, "*.go"))
+	for _, p := range files {
+		b := filepath.Base(p)
+		if strings.HasSuffix(b, "_test.go") || strings.Contains(b, "verif") {
+			continue
+		}
+		f := parse(fset, p)
+		for _, d := range f.Decls {
+			g, ok := d.(*ast.GenDecl)
+			if !ok || g.Tok != token.VAR {
+				continue
+			}
+			for _, sp := range g.Specs {
+				vs := sp.(*ast.ValueSpec)
+				ty := ""
+				if vs.Type != nil {
+					ty = selName(vs.Type)
+				}
+				for _, n := range vs.Names {
+					if n.Name != "_" {
+						res[n.Name] = ty
+					}
+				}
+			}
+		}
+	}
+	return res
+}
+
+func rootIdent(e ast.Expr) *ast.Ident {
+	for {
+		switch x := e.(type) {
+		case *ast.Ident:
+			return x
+		case *ast.SelectorExpr:
+			e = x.X
+		case *ast.IndexExpr:
+			e = x.X
+		case *ast.SliceExpr:
+			e = x.X
+		case *ast.StarExpr:
+			e = x.X
+		case *ast.ParenExpr:
+			e = x.X
+		default:
+			return nil
+		}
+	}
+}
+
+// stateWrites lists, for every function of file (except init), the ways it may write a package-level variable.
+func stateWrites(fset *token.FileSet, repo, rel string) [][3]string {
+	p := filepath.Join(repo, rel)
+	f := parse(fset, p)
+	pv := packageVars(fset, filepath.Dir(p))
+	var out [][3]string
+	for _, d := range f.Decls {
+		fn, ok := d.(*ast.FuncDecl)
+		if !ok || fn.Body == nil || fn.Name.Name == "init" {
+			continue
+		}
+		local := map[string]bool{}
+		alias := map[string]string{} // local name -> package var it may alias
+		addLocal := func(fl *ast.FieldList) {
+			if fl != nil {
+				for _, fd := range fl.List {
+					for _, n := range fd.Names {
+						local[n.Name] = true
+					}
+				}
+			}
+		}
+		addLocal(fn.Recv)
+		addLocal(fn.Type.Params)
+		addLocal(fn.Type.Results)
+		isPkg := func(id *ast.Ident) (string, bool) {
+			if id == nil {
+				return "", false
+			}
+			if a, ok := alias[id.Name]; ok {
+				return a, true
+			}
+			if local[id.Name] {
+				return "", false
+			}
+			_, ok := pv[id.Name]
+			return id.Name, ok
+		}
+		note := func(what string) { out = append(out, [3]string{rel, fn.Name.Name, what}) }
+		ast.Inspect(fn.Body, func(n ast.Node) bool {
+			switch x := n.(type) {
+			case *ast.AssignStmt:
+				for i, lhs := range x.Lhs {
+					id, direct := lhs.(*ast.Ident)
+					var rhs ast.Expr
+					if len(x.Rhs) == len(x.Lhs) {
+						rhs = x.Rhs[i]
+					}
+					if direct {
+						// aliasing: x := pkgVar, x = pkgVar, x := pkgVar[:0], x = &pkgVar ...
+						aliased := ""
+						if rhs != nil {
+							r := rhs
+							if u, ok := r.(*ast.UnaryExpr); ok && u.Op == token.AND {
+								r = u.X
+							}
+							if name, ok := isPkg(rootIdent(r)); ok {
+								switch r.(type) {
+								case *ast.Ident, *ast.SliceExpr, *ast.StarExpr, *ast.ParenExpr:
+									aliased = name
+								}
+							}
+							// x = append(alias, ...) may still share the backing array
+							if c, ok := r.(*ast.CallExpr); ok && selName(c.Fun) == "append" && len(c.Args) > 0 {
+								if name, ok := isPkg(rootIdent(c.Args[0])); ok {
+									aliased = name
+								}
+							}
+						}
+						if x.Tok == token.DEFINE {
+							local[id.Name] = true
+							delete(alias, id.Name)
+							if aliased != "" {
+								alias[id.Name] = aliased
+							}
+							continue
+						}
+						if local[id.Name] {
+							delete(alias, id.Name)
+							if aliased != "" {
+								alias[id.Name] = aliased
+							}
+							continue
+						}
+						if _, ok := pv[id.Name]; ok {
+							note("assigns " + id.Name)
+						}
+						continue
+					}
+					if name, ok := isPkg(rootIdent(lhs)); ok {
+						note("assigns into " + name)
+					}
+				}
+			case *ast.IncDecStmt:
+				if name, ok := isPkg(rootIdent(x.X)); ok {
+					note("inc/dec " + name)
+				}
+			case *ast.DeclStmt:
+				if g, ok := x.Decl.(*ast.GenDecl); ok {
+					for _, sp := range g.Specs {
+						if vs, ok := sp.(*ast.ValueSpec); ok {
+							for _, nm := range vs.Names {
+								local[nm.Name] = true
+							}
+						}
+					}
+				}
+			case *ast.RangeStmt:
+				if x.Tok == token.DEFINE {
+					for _, e := range []ast.Expr{x.Key, x.Value} {
+						if id, ok := e.(*ast.Ident); ok {
+							local[id.Name] = true
+						}
+					}
+				}
+			case *ast.UnaryExpr:
+				if x.Op == token.AND {
+					if name, ok := isPkg(rootIdent(x.X)); ok {
+						if _, isComposite := x.X.(*ast.CompositeLit); !isComposite {
+							note("takes the address of " + name)
+						}
+					}
+				}
+			case *ast.CallExpr:
+				name := selName(x.Fun)
+				if (name == "append" || name == "copy") && len(x.Args) > 0 {
+					if v, ok := isPkg(rootIdent(x.Args[0])); ok {
+						note(name + " into the backing array of " + v)
+					}
+				}
+				if se, ok := x.Fun.(*ast.SelectorExpr); ok {
+					if id, ok := se.X.(*ast.Ident); ok {
+						if v, ok := isPkg(id); ok && !readOnlyMethods[se.Sel.Name] && !strings.Contains(pv[v], "Logger") {
+							note("calls " + v + "." + se.Sel.Name + " (receiver is package-level state)")
+						}
+					}
+				}
+			}
+			return true
+		})
+	}
+	return out
+}
+
 func main() {
 	repo := "/repo"
 	for _, a := range os.Args[1:] {
@@ -343,6 +546,23 @@ func main() {
 			return r
 		}
 		fmt.Fprintf(&b, "/-- workingOn / timeout return expressions -/\ndef workingOnExpr : String := %s\ndef timeoutExpr : String := %s\n", leanStr(ret("workingOn")), leanStr(ret("timeout")))
+	}
+
+	// package-level state writes in the VRF code
+	{
+		var ws [][3]string
+		for _, rel := range []string{"src/common/ed25519/vrf.go", "src/consensus/logical/vrf_with_stake.go", "src/consensus/vrf/vrf.go"} {
+			ws = append(ws, stateWrites(fset, repo, rel)...)
+		}
+		b.WriteString("\n/-- (file, function, what) for every write to package-level state by a function of the VRF files (init excluded; go/ast, no type information) -/\n")
+		b.WriteString("def stateWrites : List (String × String × String) :=\n  [")
+		for i, w := range ws {
+			if i > 0 {
+				b.WriteString(",\n   ")
+			}
+			fmt.Fprintf(&b, "(%s, %s, %s)", leanStr(w[0]), leanStr(w[1]), leanStr(w[2]))
+		}
+		b.WriteString("]\n")
 	}
 
 	// every non-test call site of VRFProof2Hash / decodeProof: padded first?
